@@ -50,7 +50,7 @@ def key_facts(eng, X):
                 rel = repr(rel)
             else:
                 rel = -16
-        chain.append({"shape": shape, "rel": rel, "len": ln, "back": c["back"], "order": c["order"], "item": c["item"], "lid": c["lid"], "done": c["done"],
+        chain.append({"range": c.get("range"), "shape": shape, "rel": rel, "len": ln, "back": c["back"], "order": c["order"], "item": c["item"], "lid": c["lid"], "done": c["done"],
                       "buf": blk[0][1] if blk else None, "did": c["md5"][1], "state": c["state"]})
     return first, chain
 
@@ -74,7 +74,7 @@ def xor_facts(eng, X, chain):
                         same_buf = True
         lo, hi = eng.bounds(st, j)
         lastmd5 = [e for e in st.events() if e[0] == "md5"]
-        out.append({"kind": kind, "dest": dest, "aligned": si == j, "j": (lo, hi), "order": x["order"], "lid": x["lid"], "done": x["done"],
+        out.append({"range": x.get("range"), "state": st, "kind": kind, "dest": dest, "aligned": si == j, "j": (lo, hi), "order": x["order"], "lid": x["lid"], "done": x["done"],
                     "digest_is_latest": bool(lastmd5) and lastmd5[-1][1] == dig, "base": repr(base), "same_buf": same_buf})
     return out
 
@@ -141,6 +141,13 @@ def run_config(chk, config):
     chk.oblig(not pr, "dependence | reveal", "reveal: the chain key is not the previous CIPHERTEXT block: %s" % pr,
               {"rule": "descending walk: block i-1 has not been XORed yet when it keys block i; block 0 last", "problems": pr},
               {"obligation": "reveal: key block i-1 is in state 'original' (descending walk, block 0 last)"})
+    # every block is processed: chain over blocks 1..n-1 with n = |buffer|/16, XOR over j = 0..16
+    from hiding import coverage_facts
+    for name, eng_, X_, ch_, xs_ in (("hide", engh, H, hc, hx), ("reveal", engr, R, rc, rx)):
+        cp = coverage_facts(eng_, X_, ch_, xs_)
+        chk.oblig(not cp, "coverage | %s" % name, "%s does not process every block/octet: %s" % (name, cp[:2]),
+                  {"rule": "chain over blocks 1..n-1 (n = |buffer|/16), XOR over all 16 octets of a block", "problems": cp},
+                  {"obligation": "%s: chain loop covers blocks 1..n-1, XOR loops cover 16 octets" % name})
     # plaintext shape at the first MD5 of hide
     from hiding import plaintext_facts
     dests = set(x["dest"] for x in hx)
